@@ -754,6 +754,63 @@ func (e *enc) specCall(env *specEnv, n *SCall) (tval, error) {
 			return tval{}, fmt.Errorf("NVisited() is only available in invariants of a loop that ranges over a map")
 		}
 		return tval{fmt.Sprintf("(Card_%s %s)", env.visitedSort, env.visited), intTy, "Int"}, nil
+	case "Child", "ChildN", "Count", "Kid", "NKids", "Parent":
+		// tree structure in specs: Child(n, "sym") first child produced by grammar symbol sym, ChildN(n, "sym", i), Count(n, "sym"),
+		// Kid(n, i) the i-th child, NKids(n), Parent(n)
+		if len(n.Args) < 1 {
+			return tval{}, fmt.Errorf("%s needs a node", n.Fun)
+		}
+		nv, err := e.specX(env, n.Args[0])
+		if err != nil {
+			return tval{}, err
+		}
+		symOf := func() (int, error) {
+			if len(n.Args) < 2 {
+				return 0, fmt.Errorf("%s(node, \"symbol\")", n.Fun)
+			}
+			lit, ok := n.Args[1].(*SStr)
+			if !ok {
+				return 0, fmt.Errorf("%s needs a literal grammar symbol", n.Fun)
+			}
+			return e.symTag(lit.V), nil
+		}
+		switch n.Fun {
+		case "Child":
+			sid, err := symOf()
+			if err != nil {
+				return tval{}, err
+			}
+			return tval{fmt.Sprintf("(%s %s %d 0)", e.fNth(), nv.t, sid), nodeTy, "Int"}, nil
+		case "ChildN":
+			sid, err := symOf()
+			if err != nil || len(n.Args) != 3 {
+				return tval{}, fmt.Errorf("ChildN(node, \"symbol\", i)")
+			}
+			iv, err := e.specX(env, n.Args[2])
+			if err != nil {
+				return tval{}, err
+			}
+			return tval{fmt.Sprintf("(%s %s %d %s)", e.fNth(), nv.t, sid, iv.t), nodeTy, "Int"}, nil
+		case "Count":
+			sid, err := symOf()
+			if err != nil {
+				return tval{}, err
+			}
+			return tval{fmt.Sprintf("(%s %s %d)", e.fCnt(), nv.t, sid), intTy, "Int"}, nil
+		case "Kid":
+			if len(n.Args) != 2 {
+				return tval{}, fmt.Errorf("Kid(node, i)")
+			}
+			iv, err := e.specX(env, n.Args[1])
+			if err != nil {
+				return tval{}, err
+			}
+			return tval{fmt.Sprintf("(%s %s %s)", e.fChild(), nv.t, iv.t), nodeTy, "Int"}, nil
+		case "NKids":
+			return tval{fmt.Sprintf("(%s %s)", e.fNchild(), nv.t), intTy, "Int"}, nil
+		default:
+			return tval{fmt.Sprintf("(%s %s)", e.fParent(), nv.t), nodeTy, "Int"}, nil
+		}
 	case "GetText", "GetLine", "GetColumn", "GetTokenType", "GetChildCount":
 		as, err := args()
 		if err != nil {
